@@ -19,7 +19,7 @@ TRUSTED_BASE = [
     "Lean 4.33.0 kernel",
     "axioms: every audited theorem depends on at most propext, Classical.choice, Quot.sound (the audit would list a *._native.bv_decide.ax_* axiom per theorem if one appeared; none does)",
     "tools/extract.py copies constants/tables from the Rust source into lean/Wee/Gen (fails closed on a missing pattern)",
-    "tools/rs2lean.py translates the straight-line bit-level functions (moves.rs mod compact and Move constructors/accessors, Square helpers, Evaluation::mate_in_ply/is_terminal) into lean/Wee/Gen/MoveFns.lean; trusted: its parser and the table of primitive mappings in tools/rs2lean.NOTES.md; the bridge to the hand model is proved (Wee/Proofs/MoveFnsBridge.lean)",
+    "tools/rs2lean.py translates the straight-line bit-level functions (moves.rs mod compact and Move constructors/accessors, Square helpers, Evaluation::mate_in_ply/is_terminal) into lean/Wee/Gen/MoveFns.lean; trusted: its parser and the table of primitive mappings in tools/rs2lean.NOTES.md; the bridge to the hand model is proved (Wee/Proofs/MoveFnsBridge.lean); stage 2 (tools/rs2lean2.py → Wee/Gen/CoreFns.lean, bridge Wee/Proofs/CoreFnsBridge.lean): impl BitBoard, Board::new and occupancy accessors, CastleRights, State::by_performing_move, ZobristHasher::hash, AttackGenerator lookups and leaper tables; new trusted primitives: trailing_zeros/leading_zeros/count_ones (proved equal to the model's), wrapping_mul, saturating_add",
     "correspondence check: hand-written executable Lean model vs the real Rust code on generated inputs (differential; as strong as the generators)",
     "Wee/Spec/*.lean is the reading of what the property means",
     "modelled, not verified: std (RwLock, channels, sort_by_cached_key, OnceCell, str slicing), rayon, the regex crate's conformance to Wee/Spec/Regex.lean on the one FEN literal, rand/rand_chacha, ciborium, rustc `as` casts and overflow-check semantics, IEEE-754 binary32 of the CPU",
@@ -71,6 +71,17 @@ def step_extract():
     after = open(gen).read() if os.path.exists(gen) else ""
     if after != before:
         changed = list(changed) + ["Wee/Gen/MoveFns.lean"]
+    # stage 2 (tools/rs2lean2.py): `impl BitBoard`, the Index/Color/Piece helpers, CastleRights, Board::new and the occupancy
+    # accessors, State::by_performing_move, ZobristHasher::hash, the AttackGenerator lookups and the leaper tables are
+    # re-translated into Wee/Gen/CoreFns.lean; Wee/Proofs/CoreFnsBridge.lean proves them equal to the hand model
+    gen2 = os.path.join(LEAN, "Wee", "Gen", "CoreFns.lean")
+    before2 = open(gen2).read() if os.path.exists(gen2) else ""
+    rc3, out3, err3 = run([sys.executable, os.path.join(VERIF, "tools", "rs2lean2.py")])
+    if rc3 != 0:
+        return False, ("TIE-BROKEN rs2lean2: " + (out3 + err3).strip())[-600:], changed
+    after2 = open(gen2).read() if os.path.exists(gen2) else ""
+    if after2 != before2:
+        changed = list(changed) + ["Wee/Gen/CoreFns.lean"]
     return True, "", changed
 
 
